@@ -289,14 +289,31 @@ class H5Group:
         grp = dest_grp[name]
         grp.attrs["name"] = name
         if not keep_id:
+            newids = dict()
+
             def change_id(_, igrp):
                 if "entity_id" in igrp.attrs:
                     id_ = util.create_id()
+                    oldid = igrp.attrs["entity_id"]
+                    if isinstance(oldid, bytes):
+                        oldid = oldid.decode()
+                    newids[oldid] = id_
                     igrp.attrs.modify("entity_id", np.bytes_(id_))
-            id_ = util.create_id()
-            grp.attrs.modify("entity_id", np.bytes_(id_))
+
+            groups = list()
+
+            def collect_groups(_, igrp):
+                if isinstance(igrp, h5py.Group):
+                    groups.append(igrp)
+            change_id(None, grp)
             if isinstance(grp, h5py.Group):
                 grp.visititems(change_id)
+                grp.visititems(collect_groups)
+            # links to entities are named by the id of their target
+            for igrp in groups:
+                for lname in list(igrp.keys()):
+                    if lname in newids:
+                        igrp.move(lname, newids[lname])
         return grp
 
     @property
